@@ -151,7 +151,9 @@ def main(argv):
     small, used = shrink_lib.shrink(machine, rep['desc'],
                                     rep['violation']['cls'],
                                     int(os.environ.get('VERIF_SHRINK_EXECS',
-                                                       '300')))
+                                                       '300')),
+                                    float(os.environ.get(
+                                        'VERIF_SHRINK_SECONDS', '60')))
     res = machine.execute(small)
     rep['original_ops'] = len(rep['desc']['ops'])
     rep['desc'] = small
